@@ -48,6 +48,8 @@ type Scenario struct {
 //	extend-returned  b := Msgs[Msg].Bounds(); b.Extend(Msgs[Add]) — the returned box is the caller's to change
 //	push             a fresh copy of Msgs[Add] is pushed into the collection found at Path inside Msgs[Msg]
 //	write            ordinate Ord of the non-collection found at Path inside Msgs[Msg] is overwritten with V
+//	setlayout        SetLayout(the layout it reports) is called on the collection found at Path inside Msgs[Msg]
+//	                 (whether that succeeds is not this property's business; the coordinates are what they were)
 type Later struct {
 	K    string  `json:"k"`
 	Msg  int     `json:"msg"`
@@ -145,7 +147,7 @@ func (prop) Decode(raw []byte) (any, error) {
 		}
 	}
 	for _, l := range s.Later {
-		if l.K != "extend-returned" && l.K != "push" && l.K != "write" {
+		if l.K != "extend-returned" && l.K != "push" && l.K != "write" && l.K != "setlayout" {
 			return nil, fmt.Errorf("bad later step %q", l.K)
 		}
 		if l.Msg < 0 || l.Msg >= len(s.Msgs) || l.Add < 0 || l.Add >= len(s.Msgs) || l.Ord < 0 || len(l.Path) > 6 || math.IsNaN(float64(l.V)) || math.IsInf(float64(l.V), 0) {
@@ -287,8 +289,8 @@ func (prop) Generate(r *prng.Rand, phase string) any {
 		}
 	}
 	for i := r.Pick(3, 2, 2, 1); i > 0; i-- {
-		l := Later{K: []string{"extend-returned", "push", "write"}[r.Intn(3)], Msg: r.Intn(n), Add: r.Intn(n), Ord: r.Intn(64), V: mgeom.F(r.SmallFloat())}
-		if l.K == "push" {
+		l := Later{K: []string{"extend-returned", "push", "write", "setlayout"}[r.Pick(3, 3, 3, 1)], Msg: r.Intn(n), Add: r.Intn(n), Ord: r.Intn(64), V: mgeom.F(r.SmallFloat())}
+		if l.K == "push" || l.K == "setlayout" {
 			// prefer a collection message when there is one
 			for tries := 0; tries < 4 && s.Msgs[l.Msg].T != mgeom.GC; tries++ {
 				l.Msg = r.Intn(n)
@@ -939,7 +941,7 @@ func laterLife(res *core.Result, log *core.Log, s *Scenario, geoms []geom.T) boo
 				return false
 			}
 			res.Count("later:extend-returned", 1)
-		case "push", "write":
+		case "push", "write", "setlayout":
 			// walk to the target
 			ok := true
 			for _, k := range l.Path {
@@ -954,7 +956,23 @@ func laterLife(res *core.Result, log *core.Log, s *Scenario, geoms []geom.T) boo
 				res.Count("later:skipped", 1)
 				continue
 			}
-			if l.K == "push" {
+			if l.K == "setlayout" {
+				gc, isGC := g.(*geom.GeometryCollection)
+				if m.T != mgeom.GC || !isGC {
+					res.Count("later:skipped", 1)
+					continue
+				}
+				var serr error
+				if p := core.Guard(func() { serr = gc.SetLayout(gc.Layout()) }); p != "" {
+					res.Fail("panic", "panic:later:"+core.PanicSite(p), "%s: SetLayout panicked: %s", what, p)
+					return false
+				}
+				if serr == nil {
+					res.Count("later:setlayout", 1)
+				} else {
+					res.Count("later:setlayout-refused", 1)
+				}
+			} else if l.K == "push" {
 				gc, isGC := g.(*geom.GeometryCollection)
 				if m.T != mgeom.GC || !isGC {
 					res.Count("later:skipped", 1)
@@ -1029,6 +1047,17 @@ func laterLife(res *core.Result, log *core.Log, s *Scenario, geoms []geom.T) boo
 		log.Addf("%s -> %s", what, describeBounds(b))
 		if d := compare(b, want); d != "" {
 			res.Fail("bounds-stale", "bounds-stale:"+l.K+":"+cur[l.Msg].T, "Bounds() asked again after %s: %s; got %s; the geometry is now %s", what, d, describeBounds(b), cur[l.Msg])
+			return false
+		}
+		// the same box by the other route: a fresh box extended by the message as a whole
+		var b2 *geom.Bounds
+		if p := core.Guard(func() { b2 = geom.NewBounds(geom.NoLayout).Extend(geoms[l.Msg]) }); p != "" {
+			res.Fail("panic", "panic:later-extend:"+core.PanicSite(p), "NewBounds().Extend(message) after %s panicked: %s", what, p)
+			return false
+		}
+		res.Steps++
+		if d := compare(b2, want); d != "" {
+			res.Fail("bounds-stale", "extend-differs:"+l.K+":"+cur[l.Msg].T, "NewBounds().Extend(message) after %s: %s; got %s; the geometry is now %s", what, d, describeBounds(b2), cur[l.Msg])
 			return false
 		}
 	}
